@@ -12,6 +12,9 @@ Property theorems about the executable model `IrisVerif/Model/Steady.lean`. Sect
   7. steady autovalues
   8. residuals of degree <= 1 are affine in the date: zero at two dates => zero at every date
   9. the linear algorithm: a solution of the stacked two-date system solves the system at every date
+     (`Props/BridgeC05.lean` derives the hypotheses from the executable `Linear.*` returning a result)
+ 10. non-vacuity examples   12. tolerance version of 8 (bounded at two dates ⇒ bounded at every date)
+ 11. executable certificate `goodGuess?`, `certify`: `SolverCertified` is inhabited by every wrapped solver
 What stays outside (runtime facts, validated per run by the harness): convergence of the iteration, the
 neqs exit test itself, floating point, and "every date" for genuinely nonlinear models.
 -/
@@ -481,9 +484,11 @@ structure GoodGuess (loggable : Nat → Bool) (ev : Evaluator) (g : List Rat) : 
   fixedLevel : ∀ q, ev.inWrt q = true → q ∉ ev.wrtLevel → ∃ l, ev.base.level q = some l ∧ (ev.logly q = true → 0 < l)
   /-- a block quantity whose change is held fixed has a change that both readers agree on -/
   fixedChange : ev.flat = false → ∀ q, ev.inWrt q = true → q ∉ ev.wrtChange → ChangeOK (ev.logly q) (ev.base.change q)
-  /-- the flat evaluator has no change unknowns and sits on a flat variant -/
+  /-- the flat evaluator has no change unknowns and sits on a flat variant (a variable's change is 0, or 1 for a
+  log-variable; a parameter has none) -/
   flatNoChange : ev.flat = true → ev.wrtChange = []
-  flatBase : ev.flat = true → ∀ q, ev.inWrt q = true → ev.base.change q = some (if ev.logly q then 1 else 0)
+  flatBase : ev.flat = true → ∀ q, ev.inWrt q = true → ChangeOK (ev.logly q) (ev.base.change q)
+    ∧ Evaluator.fillChange (ev.logly q) (ev.base.change q) = (if ev.logly q then 1 else 0)
 
 theorem writeBack_level_eq (loggable : Nat → Bool) (ev : Evaluator) (g : List Rat) (v : Variant) (q : Nat) :
     (writeBack loggable ev g v).level q
@@ -544,10 +549,11 @@ theorem array_eq_steadyArray_writeBack (loggable : Nat → Bool) (ev : Evaluator
       cases hf : ev.flat with
       | true =>
         have hnc := h.flatNoChange hf
-        rw [writeBack_change_frame _ _ _ _ _ (by simp [hnc]), h.flatBase hf q hin]
-        unfold Evaluator.changeAt
-        simp only [hf, if_true]
-        cases ev.logly q <;> simp [ChangeOK, Evaluator.fillChange]
+        rw [writeBack_change_frame _ _ _ _ _ (by simp [hnc])]
+        obtain ⟨hok, hfill⟩ := h.flatBase hf q hin
+        refine ⟨hok, ?_⟩
+        rw [hfill]; unfold Evaluator.changeAt
+        simp [hf]
       | false =>
         rw [writeBack_change_eq _ _ _ _ _ h.loggable]; unfold Evaluator.changeAt
         simp only [hf]
@@ -1070,5 +1076,206 @@ example : (match steadyNonlinear exCfg exSolver exBlocks exV0 with
     | .error _ => false) = true := by decide +kernel
 
 example : exitTest (1 / 1000000000000) ((mkEvaluator exCfg ⟨[0], [0]⟩ exV0).resid [2, 0]) = true := by decide +kernel
+
+
+/-! ## 12. Tolerance version of section 8: bounded at two dates ⇒ bounded at every date -/
+
+/-- an affine function of the date that is within `ε` at two dates `t0 < t1` is within
+`ε · (1 + 2 |t − t0| / (t1 − t0))` at every date `t` (linear interpolation / extrapolation through the two values) -/
+theorem affine_two_dates_bound (f : Int → Cell) (hf : AffShape f) (t0 t1 : Int) (hlt : t0 < t1) (ε x0 x1 : Rat)
+    (h0 : f t0 = some x0) (h1 : f t1 = some x1) (b0 : |x0| ≤ ε) (b1 : |x1| ≤ ε) :
+    ∀ t : Int, ∃ x, f t = some x ∧
+      |x| ≤ ε * (1 + 2 * |((t - t0 : Int) : Rat)| / ((t1 - t0 : Int) : Rat)) := by
+  rcases hf with hn | ⟨a, b, hab⟩
+  · rw [hn t0] at h0; cases h0
+  · intro t
+    refine ⟨a + b * (t : Rat), hab t, ?_⟩
+    have e0 : x0 = a + b * (t0 : Rat) := by
+      have := hab t0; rw [h0] at this; exact Option.some.inj this
+    have e1 : x1 = a + b * (t1 : Rat) := by
+      have := hab t1; rw [h1] at this; exact Option.some.inj this
+    have hd : (0 : Rat) < ((t1 - t0 : Int) : Rat) := by exact_mod_cast sub_pos.mpr hlt
+    have hd' : ((t1 : Rat) - (t0 : Rat)) ≠ 0 := by
+      have : ((t1 - t0 : Int) : Rat) = (t1 : Rat) - (t0 : Rat) := by push_cast; ring
+      rw [← this]; exact ne_of_gt hd
+    have key : a + b * (t : Rat)
+        = x0 + ((t - t0 : Int) : Rat) / ((t1 - t0 : Int) : Rat) * (x1 - x0) := by
+      rw [e0, e1]; push_cast; field_simp; ring
+    rw [key]
+    have hx : |x1 - x0| ≤ 2 * ε := by
+      have := abs_sub x1 x0
+      linarith
+    have hnn : 0 ≤ |((t - t0 : Int) : Rat)| / ((t1 - t0 : Int) : Rat) := div_nonneg (abs_nonneg _) hd.le
+    calc |x0 + ((t - t0 : Int) : Rat) / ((t1 - t0 : Int) : Rat) * (x1 - x0)|
+        ≤ |x0| + |((t - t0 : Int) : Rat) / ((t1 - t0 : Int) : Rat) * (x1 - x0)| := abs_add_le _ _
+      _ = |x0| + |((t - t0 : Int) : Rat)| / ((t1 - t0 : Int) : Rat) * |x1 - x0| := by
+          rw [abs_mul, abs_div, abs_of_pos hd]
+      _ ≤ ε + |((t - t0 : Int) : Rat)| / ((t1 - t0 : Int) : Rat) * (2 * ε) := by
+          have := mul_le_mul_of_nonneg_left hx hnn
+          linarith
+      _ = ε * (1 + 2 * |((t - t0 : Int) : Rat)| / ((t1 - t0 : Int) : Rat)) := by ring
+
+/-- **tolerance version of `affine_residual_zero_everywhere`**: the residual of an equation of degree ≤ 1 along
+arithmetic paths that is within `ε` at two dates `t0 < t1` is defined and within `ε (1 + 2|t − t0|/(t1 − t0))` at every
+date `t` -/
+theorem affine_residual_bounded_everywhere (moving : Nat → Bool) (arr : SArray) (h : ArithArray moving arr) (e : Expr)
+    (he : isAffine moving e = true) (t0 t1 : Int) (hlt : t0 < t1) (ε x0 x1 : Rat)
+    (h0 : e.eval arr t0 = some x0) (h1 : e.eval arr t1 = some x1) (b0 : |x0| ≤ ε) (b1 : |x1| ≤ ε) :
+    ∀ t : Int, ∃ x, e.eval arr t = some x ∧
+      |x| ≤ ε * (1 + 2 * |((t - t0 : Int) : Rat)| / ((t1 - t0 : Int) : Rat)) :=
+  affine_two_dates_bound _ (residual_affine_in_date moving arr h e he) t0 t1 hlt ε x0 x1 h0 h1 b0 b1
+
+/-- with the evaluator's two dates `0` and `1`: the bound is `ε (1 + 2|t|)` -- `11 ε` over the oracle's dates −5…5 -/
+theorem affine_residual_bound_dates_0_1 (moving : Nat → Bool) (arr : SArray) (h : ArithArray moving arr) (e : Expr)
+    (he : isAffine moving e = true) (ε x0 x1 : Rat)
+    (h0 : e.eval arr 0 = some x0) (h1 : e.eval arr 1 = some x1) (b0 : |x0| ≤ ε) (b1 : |x1| ≤ ε) (t : Int) :
+    ∃ x, e.eval arr t = some x ∧ |x| ≤ ε * (1 + 2 * |(t : Rat)|) := by
+  obtain ⟨x, hx, hb⟩ := affine_residual_bounded_everywhere moving arr h e he 0 1 (by decide) ε x0 x1 h0 h1 b0 b1 t
+  refine ⟨x, hx, ?_⟩
+  simpa using hb
+
+/-- **what the oracle's dates −5…5 check relies on, as a theorem about the loop's output**: in growth mode, if a solved
+block holds within `tol` at the evaluation dates on the stored variant (the conclusion of the block recursion), then
+every equation of that block of degree ≤ 1 holds within `tol (1 + 2|t|)` at every date `t`, provided the stored
+log-variables do not grow (no log-variables, or a flat steady state) -/
+theorem blockHolds_affine_every_date (cfg : Config) (hflat : cfg.flat = false) (tol : Rat) (b : Block) (v : Variant)
+    (hb : BlockHolds cfg tol b v)
+    (hlog : ∀ q, cfg.logly q = true → v.change q = none ∨ v.change q = some 1)
+    (e : Expr) (he : e ∈ blockEqs cfg b) (haff : isAffine (movingOf cfg.logly v) e = true) (t : Int) :
+    ∃ x, e.eval (steadyArray cfg.logly v) t = some x ∧ |x| ≤ tol * (1 + 2 * |(t : Rat)|) := by
+  obtain ⟨x0, h0, l0, u0⟩ := hb e he 0 (by simp [evalDates, hflat])
+  obtain ⟨x1, h1, l1, u1⟩ := hb e he 1 (by simp [evalDates, hflat])
+  exact affine_residual_bound_dates_0_1 _ _ (steadyArray_arith cfg.logly v hlog) e haff tol x0 x1 h0 h1
+    (abs_le.mpr ⟨l0.le, u0.le⟩) (abs_le.mpr ⟨l1.le, u1.le⟩) t
+
+
+/-! ## 11. An executable certificate: `SolverCertified` is inhabited -/
+
+theorem lookup_mem_zip (ks : List Nat) (xs : List Rat) (q : Nat) (x : Rat)
+    (h : Evaluator.lookup ks xs q = some x) : (q, x) ∈ ks.zip xs := by
+  induction ks generalizing xs with
+  | nil => simp [Evaluator.lookup] at h
+  | cons k ks ih =>
+    cases xs with
+    | nil => simp [Evaluator.lookup] at h
+    | cons y ys =>
+      simp only [Evaluator.lookup] at h
+      cases hr : Evaluator.lookup ks ys q with
+      | some z =>
+        rw [hr] at h; cases h
+        exact List.mem_cons_of_mem _ (ih ys hr)
+      | none =>
+        rw [hr] at h
+        by_cases hq : q = k
+        · simp [hq] at h
+          subst hq; subst h
+          exact List.mem_cons_self ..
+        · simp [hq] at h
+
+theorem changeOK?_sound (lg : Bool) (c : Cell) (h : changeOK? lg c = true) : ChangeOK lg c := by
+  intro hlg
+  unfold changeOK? at h
+  rw [hlg] at h
+  cases c with
+  | none => exact Or.inl rfl
+  | some x => exact Or.inr ⟨x, rfl, by simpa using h⟩
+
+/-- **soundness of the executable certificate** -/
+theorem goodGuess?_sound (loggable : Nat → Bool) (ev : Evaluator) (g : List Rat)
+    (h : goodGuess? loggable ev g = true) : GoodGuess loggable ev g := by
+  unfold goodGuess? at h
+  simp only [Bool.and_eq_true, decide_eq_true_eq, List.all_eq_true, Bool.or_eq_true, Bool.not_eq_true',
+    List.contains_iff_mem, List.isEmpty_iff, List.mem_append] at h
+  obtain ⟨⟨⟨⟨⟨⟨⟨hlen, hpl⟩, hpc⟩, hlog⟩, hfl⟩, hfc⟩, hnc⟩, hfb⟩ := h
+  have inWrt_iff : ∀ q, ev.inWrt q = true ↔ q ∈ ev.wrtLevel ∨ q ∈ ev.wrtChange := by
+    intro q; simp [Evaluator.inWrt]
+  refine ⟨hlen, ?_, ?_, hlog, ?_, ?_, ?_, ?_⟩
+  · intro q x hlg hlk
+    have := hpl (q, x) (lookup_mem_zip _ _ q x hlk)
+    rcases this with h1 | h1
+    · simp [hlg] at h1
+    · exact h1
+  · intro q x hlg hlk
+    have := hpc (q, x) (lookup_mem_zip _ _ q x hlk)
+    rcases this with h1 | h1
+    · simp [hlg] at h1
+    · exact h1
+  · intro q hin hnot
+    have hq : q ∈ ev.wrtChange := by
+      rcases (inWrt_iff q).1 hin with h1 | h1
+      · exact absurd h1 hnot
+      · exact h1
+    rcases hfl q hq with h1 | h1
+    · exact absurd h1 hnot
+    · cases hl : ev.base.level q with
+      | none => rw [hl] at h1; simp at h1
+      | some l =>
+        rw [hl] at h1
+        refine ⟨l, rfl, fun hlg => ?_⟩
+        simp only [Bool.or_eq_true, Bool.not_eq_true', decide_eq_true_eq] at h1
+        rcases h1 with h2 | h2
+        · rw [hlg] at h2; cases h2
+        · exact h2
+  · intro hflat q hin hnot
+    have hq : q ∈ ev.wrtLevel := by
+      rcases (inWrt_iff q).1 hin with h1 | h1
+      · exact h1
+      · exact absurd h1 hnot
+    rcases hfc with h0 | h0
+    · rw [hflat] at h0; cases h0
+    · rcases h0 q hq with h1 | h1
+      · exact absurd h1 hnot
+      · exact changeOK?_sound _ _ h1
+  · intro hflat
+    rcases hnc with h0 | h0
+    · rw [hflat] at h0; cases h0
+    · exact h0
+  · intro hflat q hin
+    rcases hfb with h0 | h0
+    · rw [hflat] at h0; cases h0
+    · have := h0 q ((inWrt_iff q).1 hin)
+      exact ⟨changeOK?_sound _ _ this.1, this.2⟩
+
+/-- **`SolverCertified` is inhabited, by every solver**: whatever iteration is wrapped by the acceptance step
+(`certify`: an answer is taken only if it passes the exit test and the executable certificate) is certified -/
+theorem certify_certified (cfg : Config) (tol : Rat) (s : Solver) :
+    SolverCertified cfg (certify tol cfg.loggable s) tol := by
+  intro bid ev g h
+  unfold certify at h
+  split at h
+  · rename_i g' _
+    split at h
+    · rename_i hc
+      cases h
+      simp only [Bool.and_eq_true] at hc
+      exact ⟨hc.1, goodGuess?_sound _ _ _ hc.2⟩
+    · cases h
+  · cases h
+
+/-- **block recursion without an assumed certificate**: for every configuration, every block list with the ordering
+property and *every* iteration `s`, if the loop run with the accepting wrapper completes, every equation of every solved
+block is within `tol` at the evaluation dates on the final stored variant -/
+theorem steadyNonlinear_certified (cfg : Config) (tol : Rat) (s : Solver) (blocks : List Block) (v v' : Variant)
+    (hrun : steadyNonlinear cfg (certify tol cfg.loggable s) blocks v = .ok v') (hv : FlatReady cfg v)
+    (hord : Ordered cfg blocks) :
+    ∀ b ∈ blocks, blockSkipped cfg b = false → BlockHolds cfg tol b v' :=
+  steadyNonlinear_all_equations_hold cfg _ tol (certify_certified cfg tol s) blocks v v' hrun hv hord
+
+/-- end to end on the concrete two-block example (no hypothesis left): the loop with the accepting wrapper around
+`exSolver` completes, and both equations hold on the variant it stores, at dates 0 and 1 -/
+example : ∃ v', steadyNonlinear exCfg (certify (1 / 1000000000000) exCfg.loggable exSolver) exBlocks exV0 = .ok v'
+    ∧ ∀ b ∈ exBlocks, blockSkipped exCfg b = false → BlockHolds exCfg (1 / 1000000000000) b v' := by
+  have hok : isOk (steadyNonlinear exCfg (certify (1 / 1000000000000) exCfg.loggable exSolver) exBlocks exV0) = true := by
+    decide +kernel
+  cases hrun : steadyNonlinear exCfg (certify (1 / 1000000000000) exCfg.loggable exSolver) exBlocks exV0 with
+  | error e => rw [hrun] at hok; cases hok
+  | ok v' =>
+    refine ⟨v', rfl, ?_⟩
+    exact steadyNonlinear_certified exCfg _ exSolver exBlocks exV0 v' hrun (fun h => by cases h)
+      (by unfold Ordered; decide)
+
+/-- and a wrong answer is refused: with `x = 3` for the first block the wrapped loop reports non-convergence -/
+example : isOk (steadyNonlinear exCfg (certify (1 / 1000000000000) exCfg.loggable (fun _ _ => some [3, 0])) exBlocks exV0)
+    = false := by decide +kernel
 
 end IrisVerif.C05
